@@ -238,7 +238,6 @@ class Sim:
         strategy=("rw", 0.05, 0.3),
         max_steps=400_000,
         max_vtime=1e9,
-        trace_files=None,
         epoch=1_700_000_000.0,
     ):
         self.seed = seed
@@ -247,7 +246,6 @@ class Sim:
         self.strategy = make_strategy(strategy, self.rng)
         self.max_steps = max_steps
         self.max_vtime = max_vtime
-        self.trace_files = trace_files or {}
         self.epoch = epoch
         self.now = 0.0
         self.steps = 0
@@ -322,7 +320,6 @@ class Sim:
                 # should not happen: only teardown releases under abort
                 pass
             return
-        sys.settrace(self._global_trace)
         try:
             fn()
         except SimAbort:
@@ -571,8 +568,6 @@ class Sim:
         self._next_consult = self.steps + 1 + self.strategy.trace_skip(self)
         result = None
         exc = None
-        old_trace = sys.gettrace()
-        sys.settrace(self._global_trace)
         try:
             try:
                 result = fn()
@@ -584,7 +579,6 @@ class Sim:
             if not self.aborted:
                 self._drain(drain_steps)
         finally:
-            sys.settrace(old_trace)
             try:
                 self._teardown()
             finally:
@@ -633,26 +627,6 @@ class Sim:
             if not t.done_lock.acquire(True, 20.0):
                 raise HarnessError(f"thread {t.tid} {t.name} did not unwind in teardown")
         self.current = None
-
-    # ---- tracing ---------------------------------------------------------
-    def _global_trace(self, frame, event, arg):
-        mode = self.trace_files.get(frame.f_code.co_filename)
-        if mode is None:
-            return None
-        if mode == 2:
-            frame.f_trace_opcodes = True
-            return self._trace_opcode
-        return self._trace_line
-
-    def _trace_opcode(self, frame, event, arg):
-        if event == "opcode":
-            self.preempt()
-        return self._trace_opcode
-
-    def _trace_line(self, frame, event, arg):
-        if event == "line":
-            self.preempt()
-        return self._trace_line
 
 
 def _never():
